@@ -162,6 +162,10 @@ def gen(rng):
         spec["dis_v"][0] = False
     if all(spec["dis_t"]):
         spec["dis_t"][0] = False
+    # some DISABLED targets are declared with optimize_log=True (legal while their value and target are positive at
+    # construction, when every target is still active); disabled, they must not influence anything
+    f0 = optmon.make_f(spec)(spec["x0"])
+    spec["optlog"] = [bool(spec["dis_t"][i] and spec["tars"][i] > 0 and f0[i] > 0 and rng.random() < 0.7) for i in range(spec["m"])]
     spec["check_limits"] = rng.random() < 0.7      # False: the merit function itself does not police the limits
     spec["phase2"] = rng.random() < 0.6
     spec["phase2_frac"] = [rng.uniform(0.2, 0.8) for _ in range(spec["n"])]
